@@ -46,6 +46,9 @@ def callerHolds : List CallerHolds := [
   ⟨N.«lru.Cache.evict», N.«lru.Cache.mtx», true⟩,
   ⟨N.«headerfs.headerFile.truncateHeaders», N.«headerfs.headerStore.mtx», true⟩,
   ⟨N.«headerfs.headerStore.appendRaw», N.«headerfs.headerStore.mtx», true⟩,
+  -- blockLocatorFromHash reads headers through readHeader (no lock of its own since the recursive-read-lock repair);
+  -- both callers, LatestBlockLocator and BlockLocatorFromHash, hold the read lock
+  ⟨N.«headerfs.blockHeaderStore.blockLocatorFromHash», N.«headerfs.headerStore.mtx», false⟩,
   ⟨N.«headerfs.blockHeaderStore.readHeader», N.«headerfs.headerStore.mtx», false⟩,
   ⟨N.«headerfs.filterHeaderStore.readHeader», N.«headerfs.headerStore.mtx», false⟩,
   ⟨N.«headerfs.headerStore.readRaw», N.«headerfs.headerStore.mtx», false⟩]
